@@ -71,6 +71,30 @@ HashConfig(s) ==
       withT == IF nf = 2 /\ wi = 1 THEN withH @@ [ts |-> <<100, 100>>] ELSE withH
   IN  IF nf = 2 /\ K % 3 = 0 THEN withT @@ [tys |-> <<ty, [i \in 1..n |-> ty[(i % n) + 1]]>>] ELSE withT
 
+\* ------------------------------------------------------------- LatticeLemma
+\* on small coloured lattices the linear shortcut PairHist!HistLat equals the pair loop PairHist!Hist
+SmallLat(n, a, wn, colour) ==
+  LET d  == Len(n)
+      N  == ProdSeq(n)
+      ix == [m \in 1..N |-> LatIndex(n, m)]
+  IN  [ H |-> [k \in 1..d |-> [j \in 1..d |-> IF j = k THEN n[k] * a ELSE 0]], ppp |-> [k \in 1..d |-> 1], S |-> 10,
+        types |-> [m \in 1..N |-> LatColour(colour, ix[m])],
+        frames |-> << [m \in 1..N |-> [k \in 1..d |-> a * ix[m][k]]] >>, wn |-> wn, sharp |-> 0,
+        lat |-> [n |-> n, a |-> a, colour |-> colour] ]
+SmallLats == { SmallLat(<<3, 3>>, 10, 7, "one"), SmallLat(<<3, 5>>, 10, 7, "one"), SmallLat(<<5, 4>>, 4, 3, "one"),
+               SmallLat(<<4, 4>>, 10, 7, "checker"), SmallLat(<<4, 6>>, 10, 11, "checker"), SmallLat(<<4, 4>>, 10, 10, "checker"),
+               SmallLat(<<3, 3, 3>>, 10, 7, "one"), SmallLat(<<4, 4, 4>>, 10, 7, "checker"), SmallLat(<<2, 4, 4>>, 10, 4, "checker") }
+\* (evaluated once per check: in the single TLC run of mode "classifier")
+ASSUME LatticeLemma ==
+  Mode # "classifier" \/ \A lc \in SmallLats :
+     /\ IsTypedLattice(lc)
+     /\ LET a == HistLat(lc) b == Hist(lc) IN
+        /\ a.base = b.base /\ a.tie = b.tie /\ a.nt = b.nt
+        /\ (ProdSeq(lc.lat.n) # 32) => \E q \in 1..Len(b.base) : \E k \in 1..NBins(lc) : b.base[q][k] + b.tie[q][k] > 0
+     /\ ~IsTypedLattice([lc EXCEPT !.frames[1][1] = lc.frames[1][2]])         \* a site twice, one missing
+     /\ ~IsTypedLattice([lc EXCEPT !.types[1] = 3 - lc.types[1]])              \* a colour that breaks the invariance
+     /\ ~IsTypedLattice([lc EXCEPT !.ppp[1] = 0])                              \* an open boundary
+
 \* ------------------------------------------------------------- trace (direction B)
 Tr == IF Mode = "trace" THEN ndJsonDeserialize(IOEnv.TRACE_FILE) ELSE << >>
 
@@ -92,10 +116,10 @@ Spec == Init /\ [][Next]_vars
 IsConfig == Mode # "classifier"
 InvClassifier == (~IsConfig) => EveryPairInExactlyOnePartial(c.K) /\ OnlyTotalAboveFiveSpecies(c.K)
 InvPartition  == IsConfig => EveryPairInExactlyOnePartial(NSpecies(c)) /\ OnlyTotalAboveFiveSpecies(NSpecies(c))
-InvSumRule    == IsConfig => LET h == Hist(c) IN TotalIsCompositionWeightedSum(c, h) /\ CountsSymmetric(c, h)
+InvSumRule    == IsConfig => LET h == HistAuto(c) IN TotalIsCompositionWeightedSum(c, h) /\ CountsSymmetric(c, h)
 \* the bin index TLC computes (integer square root, then \div) is the witness k0 of BinLemma.tla, whose partition
 \* lemmas are discharged for all integers by Apalache
-InvBinIsLemmaBin == IsConfig =>
+InvBinIsLemmaBin == (IsConfig /\ NPart(c) <= 60) =>
   \A f \in 1..NFrames(c) : \A i, j \in 1..NPart(c) : i < j =>
     \A dd \in Dist2Set(FrameH(c, f), VSub(c.frames[f][j], c.frames[f][i]), c.ppp) :
       LET k == ISqrt2(dd) \div c.wn IN (k * c.wn) * (k * c.wn) <= dd /\ dd < ((k + 1) * c.wn) * ((k + 1) * c.wn)
